@@ -29,12 +29,23 @@ static bool needs_division(int op) {
 
 struct Side {
   int solid = 0;
-  uint32_t color = 0;  // a8r8g8b8 for solid
+  uint32_t color = 0;  // a8r8g8b8 for solid: the high bytes of the 16-bit channels
+  uint32_t lo = 0;     // the low bytes of the 16-bit channels (a8r8g8b8 layout); used when wide16, else the high byte is replicated
+  int wide16 = 0;
   Bits bits;
   int x = 0;
+  // the four 16-bit channels handed to pixman_image_create_solid_fill (a, r, g, b)
+  void chan16(uint32_t out[4]) const {
+    for (int k = 0; k < 4; k++) {
+      uint32_t hi = (color >> (24 - 8 * k)) & 0xff, l = (lo >> (24 - 8 * k)) & 0xff;
+      out[k] = wide16 ? (hi << 8 | l) : hi * 257;
+    }
+  }
   template <class A> void io(A &a) {
     a.f("solid", solid);
     a.f("color", color);
+    a.f("lo", lo);
+    a.f("wide16", wide16);
     a.f("bits", bits);
     a.f("x", x);
   }
@@ -85,6 +96,23 @@ static Side gen_side(bool dst, int width, bool allow_solid) {
   if (allow_solid && coin(25)) {
     s.solid = 1;
     s.color = gen_color8();
+    if (coin(30)) {
+      // genuinely 16-bit colours; in particular alpha 0xff00..0xfffe, which is opaque at 8 bits only
+      s.wide16 = 1;
+      s.lo = coin(50) ? pick<uint32_t>({0x00000000u, 0xfe000000u, 0x00ffffffu, 0x80808080u}) : u32();
+      if (coin(40)) s.color |= 0xff000000u;
+      // keep premultiplied-valid colours valid (c16 <= a16)
+      uint32_t c[4];
+      s.chan16(c);
+      bool valid8 = ((s.color >> 16) & 0xff) <= (s.color >> 24) && ((s.color >> 8) & 0xff) <= (s.color >> 24) && (s.color & 0xff) <= (s.color >> 24);
+      if (valid8)
+        for (int k = 1; k < 4; k++)
+          if (c[k] > c[0]) {
+            int sh = 24 - 8 * k;
+            s.lo = (s.lo & ~(0xffu << sh)) | ((c[0] & 0xff) << sh);
+            s.color = (s.color & ~(0xffu << sh)) | ((c[0] >> 8) << sh);
+          }
+    }
     return s;
   }
   s.x = (int)R(0, 9);
@@ -119,8 +147,11 @@ static Px read_px(const Side &s, const Image *im, int i) {
   Px p;
   if (s.solid) {
     p.wide = false;
+    // 8-bit pipeline: the high bytes (color_to_uint32 truncates); float pipeline: the 16-bit values / 65535
+    uint32_t c[4];
+    s.chan16(c);
     p.p8 = s.color;
-    p.real = rcf::C{(s.color >> 24) / 255.0L, ((s.color >> 16) & 0xff) / 255.0L, ((s.color >> 8) & 0xff) / 255.0L, (s.color & 0xff) / 255.0L};
+    p.real = rcf::C{c[0] / 65535.0L, c[1] / 65535.0L, c[2] / 65535.0L, c[3] / 65535.0L};
     return p;
   }
   pixman_format_code_t f = s.bits.code();
@@ -138,8 +169,10 @@ static Px read_px(const Side &s, const Image *im, int i) {
   p.real = rcf::C{cf.a, cf.r, cf.g, cf.b};
   return p;
 }
-static pixman_image_t *solid_image(uint32_t c) {
-  pixman_color_t col = {(uint16_t)(((c >> 16) & 0xff) * 257), (uint16_t)(((c >> 8) & 0xff) * 257), (uint16_t)((c & 0xff) * 257), (uint16_t)((c >> 24) * 257)};
+static pixman_image_t *solid_image(const Side &sd) {
+  uint32_t c[4];
+  sd.chan16(c);
+  pixman_color_t col = {(uint16_t)c[1], (uint16_t)c[2], (uint16_t)c[3], (uint16_t)c[0]};
   return pixman_image_create_solid_fill(&col);
 }
 
@@ -147,13 +180,13 @@ static Verdict run_case(const CCase &c) {
   Verdict v;
   std::unique_ptr<Image> si, mi, di;
   pixman_image_t *s = nullptr, *m = nullptr;
-  if (c.src.solid) s = solid_image(c.src.color);
+  if (c.src.solid) s = solid_image(c.src);
   else {
     si = make_image(c.src.bits);
     s = si->im;
   }
   if (c.mask_kind) {
-    if (c.mask.solid) m = solid_image(c.mask.color);
+    if (c.mask.solid) m = solid_image(c.mask);
     else {
       mi = make_image(c.mask.bits);
       m = mi->im;
